@@ -691,6 +691,12 @@ func ruleIntervalsDefaulted(c *Check, p *Prog, rule string) {
 			}
 		}
 		if len(stores) == 0 {
+			if pos, ok := defaultedThroughTable(g, suffix); ok {
+				c.OK(rule, inst, fnName(nm), pos, "a table of (field address, positive default) rows is walked by a loop that stores the row's default through the row's address under the test that the value behind that address is zero", true)
+				continue
+			}
+		}
+		if len(stores) == 0 {
 			c.Bad(rule, inst, fnName(nm), p.Pos(nm.Pos()), "the constructor never writes a default into Node."+f+": a configuration that leaves it zero arms the loop's timer with 0 — it fires at once, every time", nil)
 			continue
 		}
@@ -723,4 +729,69 @@ func ruleIntervalsDefaulted(c *Check, p *Prog, rule string) {
 			c.Bad(rule, inst, fnName(nm), p.InstrPos(stores[0].In), "Node."+f+" is not given a positive default under the test that it itself is zero", nil)
 		}
 	}
+}
+
+// defaultedThroughTable: the constructor walks a local table of rows (address of a field, default)
+// and stores, under the test that the value behind the row's address is zero, the row's default
+// through that address; one row addresses the field with the given suffix and carries a positive
+// constant.
+func defaultedThroughTable(g *Graph, suffix string) (string, bool) {
+	for _, nd := range g.Nodes {
+		st, ok := nd.In.(*ssa.Store)
+		if !ok || nd.Kind != NInstr || !g.Live()[nd] {
+			continue
+		}
+		al, pf := tableField(st.Addr, 0)
+		al2, vf := tableField(st.Val, 0)
+		if al == nil || al != al2 || pf == vf {
+			continue
+		}
+		// the guard: *row.ptr == 0
+		tested := false
+		ss := nd
+		for _, fct := range g.NecessaryEdges(func(x *Node) bool { return x == ss }) {
+			a, op, b, okc := canonCmp(fct.Cond, fct.Pol)
+			if !okc || op != "==" {
+				continue
+			}
+			for _, pr := range [][2]*Term{{a, b}, {b, a}} {
+				if pr[1].unconv().Name != "0" {
+					continue
+				}
+				if ld, isLd := pr[0].unconv().V.(*ssa.UnOp); isLd && ld.Op == token.MUL {
+					if tal, tf := tableField(ld.X, 0); tal == al && tf == pf {
+						tested = true
+					}
+				}
+			}
+		}
+		if !tested {
+			continue
+		}
+		lit := ssa.Value(al)
+		for _, r := range *al.Referrers() {
+			if s2, ok := r.(*ssa.Store); ok && s2.Addr == ssa.Value(al) {
+				if ld, ok := s2.Val.(*ssa.UnOp); ok && ld.Op == token.MUL {
+					if inner, ok := ld.X.(*ssa.Alloc); ok {
+						lit = inner
+					}
+				}
+			}
+		}
+		rows := litStores(lit)
+		for i := 0; ; i++ {
+			ps, vs := rows[fmt.Sprintf("[%d].%s", i, pf)], rows[fmt.Sprintf("[%d].%s", i, vf)]
+			if len(ps) != 1 || len(vs) != 1 {
+				break
+			}
+			pt, vt := TermOf(ps[0], nd.Ctx), TermOf(vs[0], nd.Ctx).unconv()
+			var k int64
+			if strings.HasSuffix(strings.TrimPrefix(pt.String(), "&"), suffix) && vt.Op == "const" {
+				if _, err := fmt.Sscan(vt.Name, &k); err == nil && k > 0 {
+					return g.P.InstrPos(nd.In), true
+				}
+			}
+		}
+	}
+	return "", false
 }
